@@ -1,4 +1,6 @@
 import HmsProofs.Lemmas.SimGAll
+import HmsProofs.Lemmas.SimGSlots
+import HmsProofs.Lemmas.SimGEntry
 /-!
 # From `relocateLabels` / `renameVariables` to the hypotheses of the general simulation
 -/
@@ -38,5 +40,50 @@ theorem FnOK.of_relocate (G : GCtx) (fd : FnDef) (stmts : List Stmt) (e : Expr) 
         rw [varNames_relocate _ r hrel]; exact hm
       slot := hslot, frame := hframe, okS := okS, okE := okE, wsS := wsS, wsE := wsE, tParams := tParams
       tIdents := tIdents, tVars := tVars, key := key, outer := outer, phi := phi }
+
+/-- `FnOK.of_relocate` with label hygiene and the slot bound discharged (`cgFn_labels_nodup`,
+`cgFn_slots`). -/
+theorem FnOK.of_compiled (G : GCtx) (fd : FnDef) (stmts : List Stmt) (e : Expr) (φ : String → Option String)
+    (scopes0 : CScopes) (vm0 : List (String × Nat)) (lm0 : LM) (T : List String) (r : NCode)
+    (hbody : ∃ bsp bty, fd.body = .mk bsp bty stmts (some e))
+    (hparams : ∀ p ∈ fd.params, p.isSingleton = false)
+    (hrel : relocate (cgFn G.mod φ fd stmts (some e) scopes0 vm0 lm0) = some r)
+    (hcode : findCode G.code (mangleFnName G.mod fd.name) = some (renameVars r))
+    (hframe : (fnParts G.mod φ fd stmts (some e) scopes0 vm0 lm0).envE.nv ≤ G.F)
+    (okS : Frag.okGSs false stmts = true) (okE : Frag.okGE e = true)
+    (wsS : Frag.wsGSs G.mod fd.name φ [] stmts (fnParts G.mod φ fd stmts (some e) scopes0 vm0 lm0).envB = true)
+    (wsE : Frag.wsGE (fnParts G.mod φ fd stmts (some e) scopes0 vm0 lm0).envS.scopes φ e = true)
+    (tParams : ∀ p ∈ fd.params, p.name ∈ T) (tIdents : ∀ x ∈ Frag.identsGSs stmts, x ∈ T)
+    (tVars : ∀ x ∈ Frag.namesGE e, x ∈ T) (key : cleanupKey G.mod fd.name ∉ T)
+    (outer : ∀ sc ∈ scopes0, ∀ x ∈ T, sc.lookup x = none) (phi : PhiOK G φ) :
+    FnOK G fd.name fd
+      ⟨renameVars r, slotFn r, labelIndex (cgFn G.mod φ fd stmts (some e) scopes0 vm0 lm0), (· ∈ varNames r), T, φ,
+        scopes0, vm0, lm0⟩ stmts e :=
+  FnOK.of_relocate G fd stmts e φ scopes0 vm0 lm0 T r hbody hparams hrel
+    (cgFn_labels_nodup G.mod φ fd stmts (some e) scopes0 vm0 lm0) hcode
+    (cgFn_slots G.mod φ fd stmts (some e) scopes0 vm0 lm0 T r tParams tIdents
+      (fun e' he' => by cases he'; exact tVars) wsS key outer hrel)
+    hframe okS okE wsS wsE tParams tIdents tVars key outer phi
+
+theorem FnVoidOK.of_compiled (G : GCtx) (fd : FnDef) (stmts : List Stmt) (φ : String → Option String)
+    (scopes0 : CScopes) (vm0 : List (String × Nat)) (lm0 : LM) (T : List String) (r : NCode)
+    (hbody : ∃ bsp bty, fd.body = .mk bsp bty stmts none)
+    (hparams : ∀ p ∈ fd.params, p.isSingleton = false)
+    (hrel : relocate (cgFn G.mod φ fd stmts none scopes0 vm0 lm0) = some r)
+    (hcode : findCode G.code (mangleFnName G.mod fd.name) = some (renameVars r))
+    (hframe : (fnParts G.mod φ fd stmts none scopes0 vm0 lm0).envE.nv ≤ G.F)
+    (okS : Frag.okGSs false stmts = true)
+    (wsS : Frag.wsGSs G.mod fd.name φ [] stmts (fnParts G.mod φ fd stmts none scopes0 vm0 lm0).envB = true)
+    (tParams : ∀ p ∈ fd.params, p.name ∈ T) (tIdents : ∀ x ∈ Frag.identsGSs stmts, x ∈ T)
+    (key : cleanupKey G.mod fd.name ∉ T)
+    (outer : ∀ sc ∈ scopes0, ∀ x ∈ T, sc.lookup x = none) (phi : PhiOK G φ) :
+    FnVoidOK G fd.name fd
+      ⟨renameVars r, slotFn r, labelIndex (cgFn G.mod φ fd stmts none scopes0 vm0 lm0), (· ∈ varNames r), T, φ,
+        scopes0, vm0, lm0⟩ stmts :=
+  FnVoidOK.of_relocate G fd stmts φ scopes0 vm0 lm0 T r hbody hparams hrel
+    (cgFn_labels_nodup G.mod φ fd stmts none scopes0 vm0 lm0) hcode
+    (cgFn_slots G.mod φ fd stmts none scopes0 vm0 lm0 T r tParams tIdents
+      (fun e' he' => by cases he') wsS key outer hrel)
+    hframe okS wsS tParams tIdents key outer phi
 
 end HmsProofs.Sim
